@@ -663,7 +663,8 @@ fn err_kind(msg: &str) -> &'static str {
 
 #[derive(Default, Debug)]
 struct Feat {
-    /// a cell whose payload is a block scalar: the one serializer path that still ignores the pending anchor
+    /// a cell whose payload is a block scalar: it cannot carry an anchor, the pointer is written in full
+    /// at every occurrence (values right, sharing of that pointer lost)
     leak: bool,
     /// a cell whose payload is `null` or an enum variant with data (formerly lost their anchor)
     null_or_variant_payload: bool,
@@ -1593,15 +1594,7 @@ fn generate(a: &Args) -> i32 {
             };
             sink.case(&format!("anchors ser {enc}"), &ser_ans);
             let Some(yaml) = yaml else {
-                if ser_ans == "sererr" && f.leak {
-                    // the anchor leaked by a block scalar reached a wrapper whose pointer is already anchored
-                    sink.count("oracle.fail.C14-anchor-not-on-block-scalar");
-                    let c = oracle_seen.entry("C14-anchor-not-on-block-scalar".to_string()).or_insert(0);
-                    *c += 1;
-                    if *c <= 3 {
-                        oracle.fail("C14-anchor-not-on-block-scalar", "serialization refused: the anchor a block scalar did not take reached an already anchored wrapper", &enc, &ser_ans, "YAML text");
-                    }
-                } else if ser_ans == "sererr" && f.nested {
+                if ser_ans == "sererr" && f.nested {
                     // a wrapper directly inside a wrapper whose pointer is already anchored: not expressible
                     sink.count("oracle.fail.C14-nested-wrapper-limits");
                     let c = oracle_seen.entry("C14-nested-wrapper-limits".to_string()).or_insert(0);
@@ -1636,9 +1629,8 @@ fn generate(a: &Args) -> i32 {
                 Ok(Err(e)) => format!("err {}", err_kind(&e.to_string())),
                 Ok(Ok(t2)) => format!("ok {}", canon(&graph_of(t2))),
             };
-            // the model covers the round trip unless an anchor leaks from a block scalar onto another node
-            // (then scalar typing decides the outcome) or the value's type is infinite (strong cycle)
-            if !f.leak && !f.strong_cycle {
+            // the model covers the round trip unless the value's type is infinite (strong cycle)
+            if !f.strong_cycle {
                 sink.case(&format!("anchors rt {enc}"), &rt_ans);
                 sink.count(&format!("rt.{}", rt_ans.split(' ').take(if rt_ans.starts_with("err") { 2 } else { 1 }).collect::<Vec<_>>().join("_")));
             }
@@ -1702,10 +1694,32 @@ fn generate(a: &Args) -> i32 {
         let v = WT { x: RcAnchor(n.clone()), z: "other".into(), w: RcAnchor(n) };
         let r = catch(|| serde_saphyr::to_string(&v).map(|y| (y.clone(), serde_saphyr::from_str::<WT>(&y).map(|r| ((*r.x.0).clone(), r.z.clone(), (*r.w.0).clone(), Rc::ptr_eq(&r.x.0, &r.w.0))))));
         sink.count("witness.checked");
-        let good = matches!(&r, Ok(Ok((_, Ok((a, b, c, true))))) if a == "line1\nline2\n" && b == "other" && c == a);
-        if !good {
-            oracle.fail("C14-anchor-not-on-block-scalar", "witness: a shared multi-line String (block scalar) loses its anchor to the next plain field",
+        // since 63913c0 the values must be right (no anchor on `z`); the sharing of x and w is still lost
+        let values_right = matches!(&r, Ok(Ok((_, Ok((a, b, c, _))))) if a == "line1\nline2\n" && b == "other" && c == a);
+        let shared = matches!(&r, Ok(Ok((_, Ok((_, _, _, true))))));
+        if !values_right {
+            oracle.fail("C14-block-scalar-anchor-leaks", "witness: a shared multi-line String (block scalar): a value is wrong after the round trip",
+                "WT { x: RcAnchor(p), z: \"other\", w: RcAnchor(p) } with *p == \"line1\\nline2\\n\"", &format!("{:?}", r.as_ref().map(|r| r.as_ref().map(|(y, v)| (y.clone(), v.as_ref().map_err(|e| err_kind(&e.to_string())))).map_err(|e| e.to_string()))), "(p, other, p)");
+        } else if !shared {
+            oracle.fail("C14-anchor-not-on-block-scalar", "witness: a shared multi-line String (block scalar) is written in full twice: x and w are two allocations after the round trip",
                 "WT { x: RcAnchor(p), z: \"other\", w: RcAnchor(p) } with *p == \"line1\\nline2\\n\"", &format!("{:?}", r.map(|r| r.map(|(y, v)| (y, v.map_err(|e| err_kind(&e.to_string())))).map_err(|e| e.to_string()))), "(p, other, p, ptr_eq = true)");
+        }
+        // two different block-scalar payloads inside one anchored wrapper, and that wrapper aliased
+        #[derive(Serialize, Deserialize, Debug)]
+        struct WIn { a: RcAnchor<String>, b: RcAnchor<String>, n: i64 }
+        #[derive(Serialize, Deserialize, Debug)]
+        struct WOut { o: RcAnchor<WIn>, p: Option<RcAnchor<WIn>> }
+        for alias in [false, true] {
+            let i = Rc::new(WIn { a: RcAnchor(Rc::new("a1\na2\n".into())), b: RcAnchor(Rc::new("b1\nb2\n".into())), n: 1 });
+            let v = WOut { o: RcAnchor(i.clone()), p: if alias { Some(RcAnchor(i)) } else { None } };
+            let r = catch(|| serde_saphyr::to_string(&v).map(|y| (y.clone(), serde_saphyr::from_str::<WOut>(&y).map(|r| ((*r.o.a.0).clone(), (*r.o.b.0).clone(), Rc::ptr_eq(&r.o.a.0, &r.o.b.0))))));
+            sink.count("witness.checked");
+            let good = matches!(&r, Ok(Ok((_, Ok((a, b, false))))) if a == "a1\na2\n" && b == "b1\nb2\n");
+            if !good {
+                oracle.fail("C14-unanchored-wrapper-takes-enclosing-anchor", "witness: two different block-scalar payloads inside an anchored wrapper: written without anchors, the inner wrappers took the enclosing wrapper's anchor id on reading (b read back as a's text; with the outer wrapper aliased: `reused with incompatible Rc type`)",
+                    if alias { "WOut { o: RcAnchor(i), p: Some(RcAnchor(i)) }" } else { "WOut { o: RcAnchor(i), p: None }" },
+                    &format!("{:?}", r.map(|r| r.map(|(y, v)| (y, v.map_err(|e| err_kind(&e.to_string())))).map_err(|e| e.to_string()))), "(a1.., b1.., distinct)");
+            }
         }
         #[derive(Serialize, Deserialize, Debug)]
         struct WV { v: i64 }
@@ -1867,9 +1881,15 @@ fn generate(a: &Args) -> i32 {
                             enc_doc(&doc, &mut toks);
                             sink.case(&format!("anchors de {}", toks.join(" ")), &ans);
                             sink.count("de.fixed_nested");
-                            if !o_anch || a_anch || b_mode != 0 { continue; }
-                            // the recorded behaviour: both unanchored inner wrappers end up as one allocation
-                            if ans.starts_with("ok (,S1<,(,S2<,(,I1,),>,S2,),>") {
+                            if !o_anch || a_anch || b_mode != 0 || t_mode != 0 { continue; }
+                            // `o: &a1 {a: {v: 1}, b: {v: 2}}`: the unanchored inner wrappers are two fresh
+                            // allocations (before afd0262 `b` was the allocation of `a`)
+                            if ans.starts_with("ok (,S1<,(,S2<,(,I1,),>,S3<,(,I2,),>,),>") {
+                                sink.count("de.nested_unanchored_independent");
+                            } else {
+                                oracle.fail("C14-unanchored-wrapper-takes-enclosing-anchor", "an unanchored wrapper nested in an anchored one does not get a fresh pointer of its own", &text, &ans, "ok (,S1<,(,S2<,(,I1,),>,S3<,(,I2,),>,),>,...");
+                            }
+                            if false {
                                 sink.count("de.nested_unanchored_takes_sibling");
                             }
                         }
